@@ -61,7 +61,7 @@ def model_request(kind, p):
             o, ok = p.get("objective", [2, 0])
             return ("dp", [keep, o, ok, k, ids, vals])
         if a == "cbldm":
-            return ("cbldm", [k, ids, vals, 1, p.get("partition_difference", 2 ** 62), 1, -1])
+            return ("cbldm", [k, ids, vals, 1, p.get("partition_difference", 2 ** 60), 1, -1])
         return None
     if kind == "pack":
         a = p["algo"]
@@ -106,6 +106,12 @@ def model_request(kind, p):
         return ("ckkbound", [p["k"], p["heaps"]])
     if kind == "find_diff":
         return ("finddiff", [p["l1"], p["l1"], p["l2"], p["l2"]])
+    if kind == "cbldm_args":
+        tl = p.get("time_limit", 1)
+        d = p.get("d", 2 ** 60)
+        return ("cbldm", [p["k"], ids_of(p), p["vals"], 1 if tl > 0 else 0, d, 0 if p.get("d_float") else 1, -1])
+    if kind == "numitems":
+        return ("numitems", [p["keep"], p["k"], p["i"]])
     if kind == "binner_ops":
         return ("heap_run", [p["ops"]])
     if kind == "bc_util":
@@ -162,6 +168,10 @@ def norm_model(kind, p, r):
         return {"list": r}
     if kind == "binner_ops":
         return {"obs": r}
+    if kind == "cbldm_args":
+        return {"bins": r[0]}
+    if kind == "numitems":
+        return {"num": r}
     if kind == "bc_util":
         return {"bool": r} if p["fn"] == "isdom" else {"lists": r}
     return {"raw": r}
@@ -214,6 +224,8 @@ def compare(kind, p, how, impl, model):
         if impl.get("exc") != model.get("exc"):
             return f"impl {short(impl)} vs model {short(model)}"
         return None
+    if how == "excmatch":
+        return None      # only the error/no-error status is compared (done above)
     if kind in ("part", "pack", "direct"):
         mb = model["bins"]
         if mb == "placeholder":
